@@ -152,11 +152,13 @@ CLAIMED = {
         "text": "Machine-checked theorems over all kernel answers (= every attacker acting at any syscall boundary): the emulated walk "
                 "hands out a completed lookup only through final_check, final_check completes only if check_current passed, a '..' "
                 "step is discarded unless check_current passed right after it; the openat2 backend issues at most 16 attempts and "
-                "EAGAIN never becomes a result; without an attacker the result lies in the root's tree. Runtime: deterministic "
+                "EAGAIN never becomes a result; without an attacker the result lies in the root's tree; what check_current's comparison "
+                "establishes for all byte strings / all answers, and the forest argument (unique sibling names): a rendering of `current` equal "
+                "to the root's rendering followed by the expected components makes `current` the descendant of the root along them. Runtime: deterministic "
                 "preemption by the supervisor -- 12 lookups x every relevant boundary of the baseline trace x 10 attacker actions "
                 "(thorough: exhaustive + do/undo pairs); oracle: returned inode / link body belongs to the set of inodes that were inside the root.",
-        "note": COMMON_NOTE + "Partial: that a passing check_current implies 'inside the root at that moment' rests on the kernel's d_path "
-                "rendering of /proc/thread-self/fd/N (attacker assumptions A1-A3 of DESIGN.md); this step is exercised by the schedule "
+        "note": COMMON_NOTE + "Partial: that the running kernel's /proc/thread-self/fd/N text is a faithful, instant rendering of the dentry "
+                "forest (the premises `renders`, A1-A3 of DESIGN.md) is the kernel's contract; it is exercised by the schedule "
                 "runs, not proved. Kernel atomicity of one openat2 call is assumed.",
         "technique": "Coq proof (parametric walk: results only flow through the checks; all responses) + schedule-exhaustive single-preemption runs + trace replay",
     },
